@@ -190,11 +190,13 @@ pub struct Cfg {
     /// binding of the same name are a recorded finding and excluded unless this is set
     pub shadowed_guards: bool,
     pub non_ascii: bool,
+    /// always generate the dependency packages (lib under build/packages, util by path)
+    pub force_packages: bool,
 }
 
 impl Default for Cfg {
     fn default() -> Self {
-        Cfg { max_modules: 3, multi_package: true, depth: 3, holes: false, shadowed_guards: false, non_ascii: true }
+        Cfg { max_modules: 3, multi_package: true, depth: 3, holes: false, shadowed_guards: false, non_ascii: true, force_packages: false }
     }
 }
 
@@ -263,10 +265,10 @@ impl<'a, 'b, 'c> G<'a, 'b, 'c> {
     fn signatures(&mut self) {
         // packages
         let mut pkgs = vec![("app".to_string(), "/ws/app".to_string(), true, vec![])];
-        if self.cfg.multi_package && self.c.chance(110) {
+        if self.cfg.multi_package && (self.cfg.force_packages || self.c.chance(110)) {
             pkgs.push(("lib".to_string(), "/ws/app/build/packages/lib".to_string(), false, vec![]));
             pkgs[0].3.push(1);
-            if self.c.chance(90) {
+            if self.cfg.force_packages || self.c.chance(90) {
                 pkgs.push(("util".to_string(), "/ws/util".to_string(), true, vec![]));
                 let k = pkgs.len() - 1;
                 pkgs[0].3.push(k);
